@@ -171,6 +171,7 @@ class Obj(object):
         self.ro = None
         self.verify = None
         self.kids = {}           # name -> (rw string or None, ro string)
+        self.live = True
 
 
 class Scenario(object):
@@ -291,12 +292,13 @@ class Scenario(object):
     def snapshot(self):
         for o in self.objs.values():
             o.kids = {}
+            o.live = False           # reachable from the directories the driver holds write caps for
         todo = []
         for c in self.root_caps:
             o, _ = self.reg(c)
             todo.append(o)
         lm, _ = self.reg(self.loose_mut)
-        lm.kind, lm.mutable = "file", True
+        lm.kind, lm.mutable, lm.live = "file", True, True
         seen = set()
         while todo:
             o = todo.pop(0)
@@ -310,7 +312,7 @@ class Scenario(object):
             kind, d = json.loads(r.body)
             if kind != "dirnode":
                 continue
-            o.kind, o.mutable = "dir", bool(d["mutable"])
+            o.kind, o.mutable, o.live = "dir", bool(d["mutable"]), True
             for f in ("rw_uri", "ro_uri", "verify_uri"):
                 if f in d:
                     self.reg(d[f])
@@ -327,6 +329,7 @@ class Scenario(object):
                     todo.append(co)
                 else:
                     co.kind = "unknown"
+                co.live = True
                 self.nid(name)
                 # the slots as the directory stores them (the listing was made with the strongest cap)
                 o.kids[name] = (rw if o.rw and o.mutable else None, ro)
@@ -343,6 +346,8 @@ class Scenario(object):
     def grid_term(self):
         rows = []
         for o in sorted(self.objs.values(), key=lambda o: o.id):
+            if not o.live:
+                continue
             if o.kind == "dir":
                 ks = []
                 for name in sorted(o.kids, key=self.nid):
@@ -462,7 +467,7 @@ def addresses(scn):
     dfs(root_ro, [], "path-from-ro-root", 0)
     # direct caps
     for o in sorted(scn.objs.values(), key=lambda o: o.id):
-        if o.kind in ("dir", "file"):
+        if o.kind in ("dir", "file") and o.live:
             if o.rw:
                 out.append(Addr(scn, o.rw, [], "write-cap"))
             if o.ro:
@@ -860,9 +865,51 @@ def scenario(run, si):
                   "http": ("POST", addr.url + "?t=relink&from_name=%s&to_dir=%s" % (q(victim), q(other.ro)), b"", ()),
                   "model": {"t": "relink", "name": victim, "to_dir": other.ro}}
             do_request(run, scn, si, addr, op, [other.ro], False, "dir/relink-into-readonly")
+        # ---- phase C: read-only authority again, now that nodes built from write caps have been used and are
+        # still referenced (operation handles): a cached writeable node must not answer for a read cap
+        addrs = [ad for ad in addresses(scn) if ad.kind in ("read-cap", "path-from-ro-root", "verify-cap")]
+        rng.shuffle(addrs)
+        budget = 40 if quick else 200
+        for addr in addrs:
+            if budget <= 0:
+                break
+            got = scn.walk(addr.cap, addr.path)
+            if got is None:
+                continue
+            o, a = got
+            if scn.writeable(o, a):
+                continue
+            r2 = ctx.rng("again", si, addr.cap, tuple(addr.path))
+            tdesc = "%s/%s" % (o.kind, "mutable" if o.mutable else "immutable")
+            parent = scn.walk(addr.cap, addr.path[:-1])[0] if addr.path else None
+            ops = dir_ops(scn, addr, o, r2, False) if (o.kind == "dir" and a == "AR") else child_ops(scn, addr, o, parent, r2)
+            for op in r2.sample(ops, min(4, len(ops))):
+                pres = [addr.cap] + ([op["model"]["to_dir"]] if op["model"].get("to_dir") else [])
+                do_request(run, scn, si, addr, op, pres, False, tdesc)
+                budget -= 1
+            leak_gets(run, scn, si, addr, o, a, [addr.cap])
         ctx.count("http-requests", web.requests)
         for e in g.logged_errors:
             ctx.count("logged:" + str(e)[:60])
+
+
+def replay(ctx, rec):
+    """Re-run the scenario the recorded case belongs to (same seed): the tree, the caps and the request are
+    re-created; failures of the recorded kind are reported again."""
+    case = rec.get("case") or {}
+    si = case.get("scenario", 0)
+    r = Run(ctx)
+    scenario(r, si)
+    bad = ctx.coq_check(IMPORTS, r.terms, preamble=r.preamble(), tag="c41replay")
+    for ix in bad:
+        corr, c = r.info[ix]
+        ctx.mismatch("model-vs-web:" + "-".join(str(x) for x in c.get("op", ["listing"])), "Coq model and the web resource disagree", case=c,
+                     correspondence=corr)
+    kind = rec.get("kind")
+    same = [f for f in ctx.failures if f["kind"] == kind]
+    ctx.failures[:] = same or ctx.failures
+    return {"scenario": si, "requests": len(r.terms), "failures_of_recorded_kind": len(same),
+            "first": ({k: same[0].get(k) for k in ("what", "case", "expected", "observed")} if same else None)}
 
 
 def run(ctx):
@@ -870,16 +917,21 @@ def run(ctx):
     ctx.correspondence("request-verdict-vs-model")
     ctx.correspondence("listing-vs-model")
     from translate import webops
-    table = webops.extract()
+    try:
+        table = webops.extract()
+    except Exception as e:     # fail-closed translator: the obligation is already broken; the oracle below does not need the table
+        table = None
+        ctx.mismatch("dispatch-table-not-extractable", "the dispatch table cannot be regenerated: %s" % e,
+                     correspondence="dispatch-table-vs-driver-cases")
     r = Run(ctx)
-    nscen = ctx.n(2, 8)
+    nscen = ctx.n(3, 8)
     for si in range(nscen):
         scenario(r, si)
-        if ctx.tier == "quick" and not ctx.search and ctx.elapsed() > 75:
+        if ctx.tier == "quick" and not ctx.search and ctx.elapsed() > 50:
             break
     # every entry of the regenerated table was exercised (URIHandler creates unlinked objects: no authority involved;
     # FileNodeDownloadHandler is only reachable with GET/HEAD)
-    for cls, meth, t, calls in table["ops"]:
+    for cls, meth, t, calls in (table["ops"] if table else []):
         if cls in ("URIHandler", "FileNodeDownloadHandler"):
             continue
         if (cls, meth, t) not in r.covered:
